@@ -172,6 +172,11 @@ func (it *RangeLimitedIterator) Valid() bool {
 			}
 		}
 	} else {
+		if it.r.Max != nil && bytes.Compare(it.Iterator.RefKey(), it.r.Max) > 0 {
+			// no key in the range: the seek to first fallback of the start position is above max
+			// on the engine which does not bound the iterator itself
+			return false
+		}
 		if it.r.Min != nil {
 			r := bytes.Compare(it.Iterator.RefKey(), it.r.Min)
 			if it.r.Type&common.RangeLOpen > 0 {
